@@ -105,3 +105,10 @@ Theorem C07_source_scheduler_is_the_model : forall pw start finish freq,
   translation_ok = true /\ gen_calc pw start finish freq = calc pw start finish freq.
 Proof. intros. split; [exact link_sched_ok | apply link_calc]. Qed.
 Print Assumptions C07_source_scheduler_is_the_model.
+
+(* the hooks and update_qnoise_factor as /repo has them now, assembled into one transition, are the state machine the history theorems
+   above are about -- for every batch / epoch index Keras may pass (the callback counts its own steps) *)
+Theorem C07_source_hooks_are_the_state_machine : forall pw start finish by_epoch update_freq initial s h batch epoch,
+  gen_step pw start finish by_epoch update_freq initial s h batch epoch = step pw start finish by_epoch update_freq initial s h.
+Proof. exact link_step. Qed.
+Print Assumptions C07_source_hooks_are_the_state_machine.
